@@ -139,6 +139,11 @@ _geo("Rotate", "geometry.geometry_mesh_transformations.Rotate",
                     ref_axis_pos=c.get("ref_axis_pos", 0.25)),
      ranges=[(r"^(P\.)?twist", 2.0, 12.0)], cost=10.0,
      cfgs=product(shapes_1surf(thorough=((3, 3), (2, 4))), SYM_Q, [dict(ref_axis_pos=0.25), dict(ref_axis_pos=0.7, _tier=T)]))
+_geo("Rotate.no_x", "geometry.geometry_mesh_transformations.Rotate",
+     lambda c: dict(val=np.zeros(_shape(c)[1]), mesh_shape=_shape(c), symmetry=c["symmetry"], rotate_x=False,
+                    ref_axis_pos=c.get("ref_axis_pos", 0.25)),
+     ranges=[(r"^(P\.)?twist", 2.0, 12.0)], cost=5.0,
+     cfgs=product([dict(nx=2, ny=3), dict(nx=3, ny=2)], SYM_Q, [dict(ref_axis_pos=0.25), dict(ref_axis_pos=0.7, _tier=T)]))
 
 
 @job("deriv.Taper", ("C01", "C02", "C03"), ranges=[(r"^(P\.)?taper", 0.3, 0.9)],
